@@ -153,7 +153,7 @@ impl ExtendedPublicKey {
         Ok(ExtendedPublicKey {
             chain_code: child_chain_code.to_vec(),
             public_key: child_pub_key,
-            depth: self.depth + 1,
+            depth: self.depth.checked_add(1).ok_or_else(|| BSVErrors::DerivationError("Cannot derive below depth 255".into()))?,
             index,
             parent_fingerprint: fingerprint.to_vec(),
         })
